@@ -307,6 +307,7 @@ def invariant_for(I, ctl, node, env, it, k, spec):
         seq = it.t
         n = z3.Length(seq)
         ghosts0 = {"_i": SInt(z3.IntVal(0)), "_pre": SBytes(z3.Empty(ByteSeq)), "_seq": SBytes(seq)}
+        _unfold(I, spec, z3.Empty(ByteSeq), None)
         _check_invs(I, ctl, spec, k, env, ghosts0, "entry")
         _havoc(I, ctl, node, env, spec, k)
         pre = c.fresh_const(f"pre@loop{k}", ByteSeq)
@@ -322,6 +323,8 @@ def invariant_for(I, ctl, node, env, it, k, spec):
             c.assume(rest == z3.Concat(z3.Unit(x), rest2))
             I.assign_target(node.target, SInt(bv2int(x)), env)
             _unfold(I, spec, pre, x)
+            c.ghost["_pre"] = SBytes(pre)
+            c.ghost["_x"] = SInt(bv2int(x))
             try:
                 I.exec_block(node.body, env)
             except BreakSig:
@@ -364,7 +367,7 @@ def invariant_for(I, ctl, node, env, it, k, spec):
 
 def _unfold(I, spec, pre, x):
     for fold in spec.fold or []:
-        for ax in fold.unfold_at(pre, x):
+        for ax in fold.unfold_at(I, pre, x):
             I.ctx.assume(ax)
 
 
